@@ -444,6 +444,9 @@ func (c *CEnv) sel(v cv, field string) cv {
 			return c.sel(cv{V: c.x.e.freshVal(st, "nilderef", pt.Elem()), T: pt.Elem()}, field)
 		}
 		inner := c.x.e.load(st, x)
+		if ov, ok := inner.(*OpaqueV); ok && ov.Tag == "any" {
+			return c.sel(cv{V: ov.Data["dyn"].(T)}, field)
+		}
 		return c.sel(cv{V: inner, T: pt.Elem()}, field)
 	case *StructV:
 		u := x.Typ.Underlying().(*types.Struct)
@@ -515,6 +518,14 @@ func (c *CEnv) sel(v cv, field string) cv {
 						}
 						return cv{V: T{S: fmt.Sprintf("(%s_v %s)", dc.Name, x.S), So: dc.Sort}, T: derefType(dc.Typ)}
 					}
+				}
+				// not registered yet: a message type of that name, stored by pointer in interfaces
+				if mt := c.x.e.tryMsgType(tn); mt != nil {
+					dc := c.x.e.dynConFor(types.NewPointer(mt))
+					if strings.HasPrefix(field, "is_") {
+						return cv{V: T{S: fmt.Sprintf("((_ is %s) %s)", dc.Name, x.S), So: SBool}}
+					}
+					return cv{V: T{S: fmt.Sprintf("(%s_v %s)", dc.Name, x.S), So: dc.Sort}, T: mt}
 				}
 				c.fail("no dynamic type %s", tn)
 			}
